@@ -241,10 +241,17 @@ class AbstractExcelInPython(ABC):
     def _match(self, lookup_value, lookup_array: List, match_type: int = 0):
         lookup_value_type = int if isinstance(lookup_value, self.EmptyCell) else type(lookup_value)
 
+        def is_number(value):
+            return isinstance(value, (float, int))
+
+        def is_comparable(value):
+            # int and float keys are the same kind of number, whatever the type of the lookup value
+            return isinstance(value, lookup_value_type) or (is_number(value) and is_number(lookup_value))
+
         match match_type:
             case 0:
                 for index, value in enumerate(lookup_array):
-                    if isinstance(value[0], self.EmptyCell) or not isinstance(value[0], lookup_value_type):
+                    if isinstance(value[0], self.EmptyCell) or not is_comparable(value[0]):
                         continue
                     if value[0].lower() == lookup_value.lower() if isinstance(value[0], str) else value[0] == lookup_value:
                         return index + 1
@@ -252,7 +259,7 @@ class AbstractExcelInPython(ABC):
             case match_type if match_type > 0:
                 last_valid_index = '#N/A'
                 for index, value in enumerate(lookup_array):
-                    if isinstance(value[0], self.EmptyCell) or not isinstance(value[0], lookup_value_type):
+                    if isinstance(value[0], self.EmptyCell) or not is_comparable(value[0]):
                         continue
                     if value[0].lower() <= lookup_value.lower() if isinstance(value[0], str) else value[0] <= lookup_value:
                         last_valid_index = index + 1
@@ -262,7 +269,7 @@ class AbstractExcelInPython(ABC):
             case match_type if match_type < 0:
                 last_valid_index = '#N/A'
                 for index, value in enumerate(lookup_array):
-                    if isinstance(value[0], self.EmptyCell) or not isinstance(value[0], lookup_value_type):
+                    if isinstance(value[0], self.EmptyCell) or not is_comparable(value[0]):
                         continue
                     if value[0].lower() >= lookup_value.lower() if isinstance(value[0], str) else value[0] >= lookup_value:
                         last_valid_index = index + 1
